@@ -244,9 +244,15 @@ class Channel(BaseChannel):
         :return:
         """
         if self.exceptions:
-            exception = self.exceptions[0]
-            if self.is_open:
-                self.exceptions.pop(0)
+            try:
+                if self.is_open:
+                    # Atomic: each queued error is raised by one caller only.
+                    exception = self.exceptions.pop(0)
+                else:
+                    exception = self.exceptions[0]
+            except IndexError:
+                # Another thread has just taken it.
+                return
             raise exception
 
     def confirm_deliveries(self):
